@@ -142,6 +142,15 @@ pub fn exercise_loaded_hdr(rec: &mut Rec, hdr: &Multiboot2Header, opts: &HdrOpts
             it.count()
         });
         rec.t.push("w.count_after1", v.map_or(Val::Panic, |c| Val::U(c as u64)));
+        let v = catch(|| {
+            let mut it = hdr.iter();
+            it.next();
+            let mut c = it.clone();
+            c.next().map(|t| rec.ext(t))
+        });
+        rec.t.push("w.clone_after1", match v { None => Val::Panic, Some(None) => Val::None, Some(Some(v)) => v });
+        let v = catch(|| hdr.iter().last().map(|t| rec.ext(t)));
+        rec.t.push("w.last", match v { None => Val::Panic, Some(None) => Val::None, Some(Some(v)) => v });
     }
 
     for (i, tag) in items.iter().enumerate() {
